@@ -38,7 +38,7 @@ ASSUMPTIONS = [
     "time stands still while workers compute: only client delays, stalls and socket timeouts advance the clock",
 ]
 PROBES_REQUIRED = ["workers_overlapped", "stalled_client_present", "slow_reader_blocked_server",
-                   "cache_file_shared", "fork", "reaped", "tls_clients"]
+                   "cache_file_shared", "fork", "reaped", "tls_clients", "waitpid_blocked"]
 
 KINDS = dict(c20.KINDS)
 REQ_KINDS = ["doc-small", "doc-large", "menu", "menu", "menu-root", "menu-root", "html", "mbox-folder",
@@ -127,6 +127,21 @@ def gen(seed, index, tier):
     }
     if rng.random() < 0.5:
         sc["bursts"].append(_burst(rng, rng.choice([2, 3, 4])))
+    if st == "ForkingTCPServer" and rng.random() < 0.05:
+        # a flood: more simultaneous children than ForkingMixIn.max_children (40), so that the accept
+        # loop has to reap with the blocking waitpid(-1, 0) path while clients keep arriving
+        flood = []
+        for _ in range(rng.choice([42, 48, 60])):
+            kind = rng.choice(["doc-small", "menu", "notfound", "html"])
+            p = rng.choice(["gopher", "http", "gopher+", "spartan"])
+            flood.append({"kind": kind, "proto": p,
+                          "net": {"role": "normal", "at": 0.0, "segments": [], "delays": [rng.choice([0.5, 0.5, 0.7])]}})
+        # a few of them keep their child alive for a while (the request arrives late)
+        for cl in flood[:6]:
+            cl["net"]["delays"] = [rng.choice([2.0, 10.0])]
+        sc["bursts"] = [flood]
+        sc["preempt_p"] = 0.0
+        sc["trace_hot"] = False
     return sc
 
 
